@@ -9,7 +9,7 @@ That results are *equal* across histories is NOT decided.
 import ast
 
 from ..model import AnalysisError, src, callee_name, dotted, walk_local, calls_in, FUNC, names_in
-from ..flow import atoms_at, path_conditions, split_conj
+from ..flow import atoms_at, path_conditions, split_conj, Sem
 from ..callgraph import CallGraph
 from .. import fresh, effects
 from ..common import resolve_single_assign
@@ -115,6 +115,24 @@ def check(ctx):
 
 
 # ------------------------------------------------------------------ R2
+class _ClearSem(Sem):
+    """state: the named memo has been cleared (or replaced) on every path reaching here"""
+    base_exc_escapes = False
+
+    def __init__(self, name):
+        self.name = name
+
+    def join2(self, a, b):
+        return a and b
+
+    def transfer(self, st, state):
+        if any(isinstance(c.func, ast.Attribute) and c.func.attr == "clear" and dotted(c.func.value) == self.name for c in calls_in(st)):
+            return True
+        if isinstance(st, ast.Assign) and any(dotted(t) == self.name for t in st.targets):
+            return True
+        return state
+
+
 def check_memo(ctx, repo, cg, rid):
     interp = "interpreter"
     call = repo.fn("interpreter:KlongInterpreter.__call__")
@@ -197,10 +215,14 @@ def check_memo(ctx, repo, cg, rid):
         if kind == "dict":
             attr = name.split(".", 1)[1]
             for wf in (setf, delf):
-                cleared = any(isinstance(c.func, ast.Attribute) and c.func.attr == "clear" and dotted(c.func.value) == name for c in calls_in(wf.node)) or \
-                    any(isinstance(a, ast.Assign) and any(dotted(t) == name for t in a.targets) for a in walk_local(wf.node))
-                ctx.ob(rid, wf.fq, f"{wf.name} clears the compile memo {name}", cleared, node=wf.node, construct=f"{wf.name} invalidates {name}",
-                       msg=f"rebinding a variable through {wf.name} leaves compiled code in {name} that was specialised to the old value's type")
+                exits = _ClearSem(name).run(wf.node, False)
+                normal = [e for e in exits if e.kind == "return"]
+                missed = [e for e in normal if not e.state]
+                ctx.ob(rid, wf.fq, f"{wf.name} clears the compile memo {name} on every path that returns normally", bool(normal) and not missed,
+                       node=missed[0].node if missed else wf.node, construct=f"{wf.name} invalidates {name}",
+                       msg=f"rebinding a variable through {wf.name} can leave compiled code in {name} that was specialised to the old value's type "
+                           f"(the memo is not cleared on the path to line {missed[0].line if missed else wf.node.lineno}: clearing must not depend on the value being stored)",
+                       path=f"entry {wf.fq} -> exit line {missed[0].line if missed else wf.node.lineno}")
         else:
             # node-level memo: valid only if its use is guarded by a generation test that the variable-write paths advance
             guarded = False
